@@ -307,6 +307,32 @@ def reorient (pts : List V3) (simplices : List (Nat × Nat × Nat)) (obs ceil : 
   | .error e => .error e
   | .ok tris => reorientCore pts tris (average pts) obs ceil
 
+/-! ### one re-orienter used for several blocks (history)
+
+A `ViewpointReorienter` object holds the observer and the ceiling point and nothing else: the six view directions
+are computed from the centre of the block at hand in every call.  The history model makes the object explicit:
+a step takes the object and a block (points and hull simplices) and returns the object and the result. -/
+
+structure Reorienter where
+  obs : V3
+  ceil : V3
+  deriving DecidableEq, Repr
+
+/-- one block: its eight points and the simplices scipy answered for them -/
+abbrev Block := List V3 × List (Nat × Nat × Nat)
+
+/-- `reorienter.reorient(operation)`: the object after the call and the new `point_array` -/
+def Reorienter.step (r : Reorienter) (b : Block) : Reorienter × Except Err (List V3) :=
+  (r, reorient b.1 b.2 r.obs r.ceil)
+
+/-- `for operation in operations: reorienter.reorient(operation)` -/
+def Reorienter.run (r : Reorienter) : List Block → Reorienter × List (Except Err (List V3))
+  | [] => (r, [])
+  | b :: bs =>
+    let (r1, out) := r.step b
+    let (r2, outs) := r1.run bs
+    (r2, out :: outs)
+
 /-- `p` coincides (to the merge tolerance) with a point of `l` -/
 def nearMem (p : V3) (l : List V3) : Prop := ∃ x ∈ l, near p x
 
@@ -529,6 +555,24 @@ def handle (op : String) (args : List String) : Option String :=
       else match reorient pts tris obs ceil with
         | .ok out => some ("ok " ++ showNatList (indicesIn pts out))
         | .error e => some ("err " ++ e.toStr)
+  | "c18.seq", obs :: ceil :: blocks => do
+      -- one re-orienter, several blocks: `pts|tris` per block; answers joined by `|`
+      let obs ← parseV3? obs
+      let ceil ← parseV3? ceil
+      let bs ← blocks.mapM (fun b =>
+        match b.splitOn "|" with
+        | [pts, tris] => do
+            let pts ← parsePts? pts
+            let tris ← parseTris? tris
+            if pts.length ≠ 8 ∨ tris.any (fun t => t.1 ≥ 8 ∨ t.2.1 ≥ 8 ∨ t.2.2 ≥ 8) then none else some (pts, tris)
+        | _ => none)
+      if bs.isEmpty then none
+      else
+        let res := ((Reorienter.mk obs ceil).run bs).2
+        some ("|".intercalate ((bs.zip res).map (fun x =>
+          match x.2 with
+          | .ok out => "ok " ++ showNatList (indicesIn x.1.1 out)
+          | .error e => "err " ++ e.toStr)))
   | "c18.hull", [eps, pts, tris] => do
       let eps ← parseRat? eps
       let pts ← parsePts? pts
